@@ -16,6 +16,7 @@ type NilV struct{}
 func (NilV) isVal() {}
 
 type Env struct {
+	lenient bool // assumption side (call sites): a clause part that mentions an unknown local contributes nothing
 	lets  map[string]*Expr
 	vars  map[string]Val
 	fr    *Frame
@@ -951,7 +952,13 @@ func (ex *Exec) softBool(e *Expr, env *Env) (res *Term) {
 		if r := recover(); r != nil {
 			if u, ok := r.(unsupported); ok && strings.Contains(u.msg, "unknown identifier") {
 				ex.st.pc = ex.st.pc[:savedPC]
-				res = ex.ts.False()
+				if env.lenient {
+					// on the assumption side the only sound reading of "cannot be evaluated here" is "no information":
+					// the enclosing implication a ==> ? becomes true
+					res = ex.ts.True()
+				} else {
+					res = ex.ts.False()
+				}
 				return
 			}
 			panic(r)
